@@ -7,6 +7,8 @@ import (
 	"go/types"
 	"sort"
 	"strings"
+
+	"golang.org/x/tools/go/cfg"
 )
 
 var bigMutators = func() map[string]bool {
@@ -270,6 +272,8 @@ func ruleTokenWriters(c *Ctx) {
 		Guards: []Guard{{ID: "funds", Doc: "the balance covers the amount taken", Alts: [][]string{{"pkg/core/state#Balance", "param#3", "math/big.(*Int).CmpAbs"}}, Whole: true, Extra: fundsExtra}},
 	}})
 	ruleTurnoutFlip(c)
+	ruleTallyWriteBack(c)
+	ruleDepositSameAccount(c)
 	// a stored candidate record is never replaced by a blank one: the fresh record is created only when none is stored
 	runGates(c, []GateSpec{{
 		ID: "RegisterCandidateInternal.fresh-record", Fn: [3]string{natPkg, "NEO", "RegisterCandidateInternal"}, Target: "node:type:pkg/core/native.candidate,pkg/core/native#Registered",
@@ -399,4 +403,113 @@ func ruleTurnoutFlip(c *Ctx) {
 		return
 	}
 	c.OK(key, c.P.Pos(cond.Pos()), "`"+types.ExprString(cond)+"` holds exactly when the voting status flips (4 rows)")
+}
+
+// ruleTallyWriteBack: ModifyAccountVotes decodes the candidate record, changes its tally and must leave the new tally
+// in storage: every normal return after the change passes the store of the record, or is the return taken because
+// dropCandidateIfZero said it deleted the record. A path that changes the decoded copy and returns loses the change.
+func ruleTallyWriteBack(c *Ctx) {
+	fd := c.P.Func(natPkg, "NEO", "ModifyAccountVotes")
+	key := "ModifyAccountVotes.tally-written-back"
+	if fd == nil {
+		c.Lost(key+".anchor", "NEO.ModifyAccountVotes not found")
+		return
+	}
+	f := c.P.NewFuncCFG(fd)
+	var changes []site
+	for _, s := range f.CallSites("math/big.(*Int).Add", "math/big.(*Int).Sub") {
+		if f.DirectMentions(s.call)["pkg/core/native#Votes"] {
+			changes = append(changes, s)
+		}
+	}
+	if len(changes) == 0 {
+		c.Lost(key+".change", "ModifyAccountVotes no longer changes a candidate's Votes with big.Int.Add/Sub")
+		return
+	}
+	done := map[*cfg.Block]bool{}
+	for _, s := range f.CallSites("pkg/core/dao.(*Simple).PutStorageConvertible", "pkg/core/dao.(*Simple).PutStorageItem") {
+		done[s.blk] = true
+	}
+	// the "dropped" outcome: true edge of a condition that is the result of dropCandidateIfZero
+	for _, b := range f.G.Blocks {
+		if cond := f.Cond(b); cond != nil && b.Live {
+			if f.Mentions(cond, b)["pkg/core/native.(*NEO).dropCandidateIfZero"] {
+				e := ast.Unparen(cond)
+				neg := false
+				if u, ok := e.(*ast.UnaryExpr); ok && u.Op == token.NOT {
+					neg = true
+				}
+				if neg {
+					done[b.Succs[1]] = true
+				} else {
+					done[b.Succs[0]] = true
+				}
+			}
+		}
+	}
+	var from []*cfg.Block
+	for _, s := range changes {
+		from = append(from, s.blk)
+	}
+	r := f.reach(from, done, nil)
+	for _, rs := range f.OKReturns() {
+		if done[rs.blk] {
+			continue
+		}
+		if _, ok := r[rs.blk]; ok {
+			// a return in the very block of the change that stores in its own expression (return d.Put...(cd))
+			stores := false
+			ast.Inspect(rs.node, func(x ast.Node) bool {
+				if call, ok := x.(*ast.CallExpr); ok && strings.HasPrefix(f.calleeSym(call), "pkg/core/dao.(*Simple).Put") {
+					stores = true
+				}
+				return true
+			})
+			if stores {
+				continue
+			}
+			c.Fail(key, c.P.Pos(rs.node.Pos()), "ModifyAccountVotes can return normally after changing the decoded candidate's Votes without storing the record (and without the record having been dropped): the candidate's tally in storage no longer equals the NEO of its voters", f.pathTo(r, rs.blk)...)
+			return
+		}
+	}
+	c.OK(key, c.P.Pos(fd.Decl.Pos()), "every normal return after the tally change stores the record or follows its deletion")
+}
+
+// ruleDepositSameAccount: in Notary.OnPersist the deposit that is charged is read, and then stored back or removed,
+// for one and the same account: the three calls take the same account expression.
+func ruleDepositSameAccount(c *Ctx) {
+	fd := c.P.Func(natPkg, "Notary", "OnPersist")
+	key := "Notary.OnPersist.deposit-account"
+	if fd == nil {
+		c.Lost(key+".anchor", "Notary.OnPersist not found")
+		return
+	}
+	f := c.P.NewFuncCFG(fd)
+	acct := func(callee string, idx int) []string {
+		var out []string
+		for _, s := range f.CallSites(callee) {
+			if idx < len(s.call.Args) {
+				out = append(out, types.ExprString(ast.Unparen(s.call.Args[idx])))
+			}
+		}
+		return out
+	}
+	reads := acct("pkg/core/native.(*Notary).GetDepositFor", 1)
+	puts := acct("pkg/core/native.(*Notary).putDepositFor", 2)
+	rems := acct("pkg/core/native.(*Notary).removeDepositFor", 1)
+	if len(reads) != 1 || len(puts)+len(rems) == 0 {
+		c.Lost(key+".sites", fmt.Sprintf("expected one GetDepositFor and at least one put/remove in Notary.OnPersist, found %d/%d/%d", len(reads), len(puts), len(rems)))
+		return
+	}
+	var bad []string
+	for _, e := range append(puts, rems...) {
+		if e != reads[0] {
+			bad = append(bad, e)
+		}
+	}
+	if len(bad) > 0 {
+		c.Fail(key, c.P.Pos(fd.Decl.Pos()), fmt.Sprintf("Notary.OnPersist reads the deposit of `%s` but stores/removes the deposit of `%s`: the charged deposit record keeps its old amount while the contract's GAS was burnt", reads[0], strings.Join(bad, ", ")))
+	} else {
+		c.OK(key, c.P.Pos(fd.Decl.Pos()), "the charged deposit is read, stored and removed for the same account expression `"+reads[0]+"`")
+	}
 }
